@@ -12,7 +12,12 @@ type PropFunc func(p *model.Prog, r *report.Result)
 
 var registry = map[string]PropFunc{}
 
-func register(id string, f PropFunc) { registry[id] = f }
+func register(id string, f PropFunc) {
+	registry[id] = func(p *model.Prog, r *report.Result) {
+		f(p, r)
+		w6Counterpart(p, r, id)
+	}
+}
 
 func Get(id string) PropFunc { return registry[id] }
 
